@@ -320,46 +320,63 @@ func (g *schemaGen) fieldOptions(typ, label string) string {
 	if len(o) == 0 {
 		return ""
 	}
-	g.rng.Intn(2)
 	return " [" + strings.Join(o, ", ") + "]"
 }
 
 // msgLiteral renders a message literal for the option message gen.Opt.
-func (g *schemaGen) msgLiteral(depth int) string {
+func (g *schemaGen) msgLiteral(depth int) string { return g.msgLiteralN(depth, true) }
+
+func (g *schemaGen) msgLiteralN(depth int, top bool) string {
 	rng := g.rng
 	open, close := "{", "}"
-	if rng.Chance(0.15) {
-		open, close = "<", ">"
+	if !top && rng.Chance(0.2) {
+		open, close = "<", ">" // angle brackets are only legal for nested values
 	}
 	sep := []string{" ", ", ", "; ", "\n  "}[rng.Intn(4)]
 	var fs []string
-	n := rng.Intn(5)
+	used := map[string]bool{}
+	once := func(name string) bool {
+		if used[name] {
+			return false
+		}
+		used[name] = true
+		return true
+	}
+	n := rng.Intn(6)
 	for i := 0; i < n; i++ {
 		switch rng.Intn(8) {
 		case 0:
-			fs = append(fs, fmt.Sprintf("a: %d", rng.Intn(100)-50))
+			if once("a") {
+				fs = append(fs, fmt.Sprintf("a: %d", rng.Intn(100)-50))
+			}
 		case 1:
-			fs = append(fs, `s: "v" 'w'`)
+			if once("s") {
+				fs = append(fs, `s: "v" 'w'`)
+			}
 		case 2:
 			fs = append(fs, "r: [1, 2, 3]")
 		case 3:
 			fs = append(fs, "r: 7")
 		case 4:
-			if depth > 0 {
+			if depth > 0 && once("sub") {
 				colon := ""
 				if rng.Bool() {
 					colon = ":"
 				}
-				fs = append(fs, "sub"+colon+" "+g.msgLiteral(depth-1))
+				fs = append(fs, "sub"+colon+" "+g.msgLiteralN(depth-1, false))
 			}
 		case 5:
 			if depth > 0 {
-				fs = append(fs, "subs: ["+g.msgLiteral(depth-1)+", "+g.msgLiteral(depth-1)+"]")
+				fs = append(fs, "subs: ["+g.msgLiteralN(depth-1, false)+", "+g.msgLiteralN(depth-1, false)+"]")
 			}
 		case 6:
-			fs = append(fs, "e: "+[]string{"OA", "OB"}[rng.Intn(2)])
+			if once("e") {
+				fs = append(fs, "e: "+[]string{"OA", "OB"}[rng.Intn(2)])
+			}
 		default:
-			fs = append(fs, "f: "+[]string{"1.5", "inf", "-nan", "1e3"}[rng.Intn(4)])
+			if once("f") {
+				fs = append(fs, "f: "+[]string{"1.5", "inf", "-nan", "1e3"}[rng.Intn(4)])
+			}
 		}
 	}
 	if len(fs) == 0 {
@@ -728,7 +745,7 @@ service H {}
 service I { rpc R(A) returns (B) {} rpc S(A) returns (B) { } rpc T(A) returns (B) {
 } }
 message J { extensions 1 to 10; }
-extend J {}
+extend J { optional int32 jx = 1; }
 message K { oneof o { int32 a = 1; } }
 `},
 	{"nested-literals", `syntax = "proto3";
